@@ -2092,6 +2092,95 @@ impl_send_and_sync_for_iterator! {
     ValuesLRUIterMut<'a, K, V>
 }
 
+/// Verification hook (feature `verif-hooks`): raw structural view of a [`RawLRU`].
+///
+/// All addresses are plain integers; nothing in here can be used to mutate the cache.
+#[cfg(feature = "verif-hooks")]
+#[doc(hidden)]
+#[derive(Debug, Clone)]
+pub struct VerifAudit {
+    /// address of the head sentinel
+    pub head: usize,
+    /// address of the tail sentinel
+    pub tail: usize,
+    /// node addresses met walking `next` from the head sentinel (exclusive) to the tail sentinel (exclusive)
+    pub fwd: Vec<usize>,
+    /// whether the forward walk reached the tail sentinel within `len + 1` steps
+    pub fwd_closed: bool,
+    /// node addresses met walking `prev` from the tail sentinel (exclusive) to the head sentinel (exclusive)
+    pub bwd: Vec<usize>,
+    /// whether the backward walk reached the head sentinel within `len + 1` steps
+    pub bwd_closed: bool,
+    /// for every index entry: (address the index key points at, address of the node it maps to)
+    pub idx: Vec<(usize, usize)>,
+    /// offset of the key field inside a node
+    pub key_offset: usize,
+    /// number of index entries
+    pub len: usize,
+    /// configured capacity
+    pub cap: usize,
+}
+
+#[cfg(feature = "verif-hooks")]
+impl<K, V, E, S> RawLRU<K, V, E, S> {
+    /// Verification hook (feature `verif-hooks`): walks the list in both directions and
+    /// dumps the index. Read-only.
+    #[doc(hidden)]
+    pub fn verif_audit(&self) -> VerifAudit {
+        let limit = self.map.len() + 1;
+        let mut fwd = Vec::new();
+        let mut fwd_closed = false;
+        let mut bwd = Vec::new();
+        let mut bwd_closed = false;
+        unsafe {
+            let mut p = (*self.head).next;
+            for _ in 0..=limit {
+                if p == self.tail {
+                    fwd_closed = true;
+                    break;
+                }
+                if p.is_null() || fwd.len() >= limit {
+                    break;
+                }
+                fwd.push(p as usize);
+                p = (*p).next;
+            }
+            let mut p = (*self.tail).prev;
+            for _ in 0..=limit {
+                if p == self.head {
+                    bwd_closed = true;
+                    break;
+                }
+                if p.is_null() || bwd.len() >= limit {
+                    break;
+                }
+                bwd.push(p as usize);
+                p = (*p).prev;
+            }
+        }
+        let idx = self
+            .map
+            .iter()
+            .map(|(k, n)| (k.k as usize, n.as_ptr() as usize))
+            .collect();
+        let probe = EntryNode::<K, V>::new_sigil();
+        let key_offset = (&probe.key as *const _ as usize) - (&probe as *const _ as usize);
+        VerifAudit {
+            head: self.head as usize,
+            tail: self.tail as usize,
+            fwd,
+            fwd_closed,
+            bwd,
+            bwd_closed,
+            idx,
+            key_offset,
+            len: self.map.len(),
+            cap: self.cap,
+        }
+    }
+}
+
+
 #[cfg(test)]
 mod tests {
     use super::RawLRU;
